@@ -319,16 +319,19 @@ def sliced (i : IIndex) (orders : List Order) : M IIndex := do
     | none => es) []
   pure { entries := es, common := i.common, shape := newShape }
 
+/-- one bucket of `slices1d`: the entries whose last coordinate is `coord`, with that coordinate removed -/
+def bucket (i : IIndex) (coord : Nat) : IIndex :=
+  { entries := i.entries.foldl (fun es (e : Key × Rows) =>
+      if e.1.getLastD 0 == (coord : Int) then dset es e.1.dropLast e.2 else es) [],
+    common := i.common, shape := i.shape.dropLast }
+
 /-- `slices1d()`: list of `(higher coordinates, 1-D slice)` in the order the generator yields them -/
 def slices1d : Nat → IIndex → List Int → List (List Int × IIndex)
   | 0, i, base => [(base, i)]
   | fuel + 1, i, base =>
     if i.shape.length > 1 then
-      let last := i.shape.getLastD 0
-      (List.range last).flatMap fun (coord : Nat) =>
-        let sub := i.entries.foldl (fun es (e : Key × Rows) =>
-          if e.1.getLastD 0 == (coord : Int) then dset es e.1.dropLast e.2 else es) []
-        slices1d fuel { entries := sub, common := i.common, shape := i.shape.dropLast } ((coord : Int) :: base)
+      (List.range (i.shape.getLastD 0)).flatMap fun (coord : Nat) =>
+        slices1d fuel (bucket i coord) ((coord : Int) :: base)
     else [(base, i)]
 
 def IIndex.slices (i : IIndex) : List (List Int × IIndex) := slices1d i.shape.length i []
